@@ -63,13 +63,21 @@ def parseEdge (j : Json) : Except String (String × String) := do
   | [p, c] => return ((← p.getStr?), (← c.getStr?))
   | _ => throw "bad-edge"
 
+def parseReservation (j : Json) : Except String Reservation := do
+  return { worker := ← fldNat j "worker", res := ← fldStr j "res", qty := ← fldNat j "qty",
+           from_ := ← fldInt j "from", to_ := ← fldInt j "to" }
+
 def parseInst (j : Json) : Except String Inst := do
+  let reserved ← match fldOpt j "reserved" with
+    | none => pure []
+    | some _ => mapM' parseReservation (← fldArr j "reserved")
   return { now := ← fldInt j "now",
            workers := ← mapM' parseWorker (← fldArr j "workers"),
            tasks := ← mapM' parseTask (← fldArr j "tasks"),
            nodes := ← mapM' parseNode (← fldArr j "nodes"),
            edges := ← mapM' parseEdge (← fldArr j "edges"),
-           enforceDeadlines := ← fldBool j "enforce_deadlines" }
+           enforceDeadlines := ← fldBool j "enforce_deadlines",
+           reserved := reserved }
 
 /-! ### Rendering -/
 
@@ -157,7 +165,8 @@ def handleE (j : Json) : Except String Json := do
      ("soft", jList (fun (p : Nat × B) => Json.str s!"(soft {p.1} - {rBool I p.2})") m.soft),
      ("obj", Json.arr #[Json.str s!"(max {rInt I m.maximize})"]),
      ("wf", Json.mkObj [("names", Json.bool I.wfNames), ("chains", Json.bool I.wfChains),
-                        ("single", Json.bool I.wfSingleEntry), ("avail", Json.bool I.wfAvail)]),
+                        ("single", Json.bool I.wfSingleEntry), ("avail", Json.bool I.wfAvail),
+                        ("states", Json.bool I.wfStates)]),
      ("decode_fail", jList (jDecision I) (decodeFail I))]
   let withSigma : List (String × Json) :=
     match fldOpt j "sigma" with
